@@ -104,6 +104,39 @@ def gen(repo):
     # the rename recipe keeps the position
     expect_same(body[4], '_cols = OrderedDict([(new, v) if k == old else (k, v) for k, v in self._cols.items()])')
 
+    # ---- DataMatrix._set_col: a column object as the value --------------------------------------
+    fn = find_function(dmod, 'DataMatrix._set_col')
+    body = body_nodoc(fn)
+    colbr = None
+    for st in body:
+        if isinstance(st, ast.If) and ast.unparse(st.test) == 'isinstance(value, BaseColumn)':
+            colbr = st
+    if colbr is None or len(colbr.body) != 3 or colbr.orelse:
+        raise TranslationError('_set_col: the branch for column values changed')
+    byref, lencheck, fresh = colbr.body
+    if not isinstance(byref, ast.If) or byref.orelse:
+        raise TranslationError('_set_col: by-reference test')
+    env = Env([('value._datamatrix is self', 'same_owner', 'bool'),
+               ('any((value is col for col in self._cols.values()))', 'is_own_column', 'bool'),
+               ('len(value) == len(self)', 'same_len', 'bool'),
+               ('all((i == j for i, j in zip(value._rowid, self._rowid)))', 'same_ids', 'bool')])
+    out.append('(* DataMatrix._set_col with a column as the value: inserted by reference (alias) or copied *)\n'
+               'Definition k_setcol_byref (same_owner is_own_column same_len same_ids : bool) : bool := %s.\n'
+               % tr_typed(byref.test, env, 'bool'))
+    expect_same(byref.body[0], 'self._cols[name] = value')
+    expect_same(byref.body[1], 'return')
+    if not isinstance(lencheck, ast.If) or lencheck.orelse:
+        raise TranslationError('_set_col: length check')
+    env = Env([('len(value)', 'vlen', 'Z'), ('len(self)', 'len', 'Z')])
+    out.append('Definition k_setcol_badlen (vlen len : Z) : bool := %s.\n' % tr_typed(lencheck.test, env, 'bool'))
+    if not (isinstance(lencheck.body[0], ast.Raise) and ast.unparse(lencheck.body[0].exc.func) == 'ValueError'):
+        raise TranslationError('_set_col: length check must raise ValueError')
+    expect_same(fresh, 'self._cols[name] = value._empty_col(datamatrix=self)')
+    # the tail: the (new) column receives the value through a whole-column slice assignment
+    tail = [ast.unparse(st) for st in body[body.index(colbr) + 1:]]
+    if tail[-2:] != ['self._cols[name][:] = value', 'self._mutate()']:
+        raise TranslationError('_set_col: the tail no longer assigns the whole column by slice: %r' % (tail[-2:],))
+
     # ---- Index: cache bookkeeping -----------------------------------------------------------
     fn = find_function(imod, 'Index.__init__')
     body = body_nodoc(fn)
